@@ -276,11 +276,12 @@ example : dominant 5 1 4 9 = true ∧ dominant 4 9 5 1 = false := by decide
 /-- **transport_fault** — in every state that reads from the connection (OPENSENT, OPENCONFIRM,
     ESTABLISHED) a transport failure at any point of a message (between messages, inside the
     header, between header and body, inside the body) brings the session to IDLE at that very
-    instant: the only output is the reported transition, no NOTIFICATION is written, hold timer
+    instant: the only outputs are the close of a completed outgoing connection still waiting to be
+    taken (`drainOuts`) and the reported transition, no NOTIFICATION is written, hold timer
     and keepalive ticker are stopped and the Adj-RIB-In is emptied. -/
 theorem transport_fault (c : Cfg) (s : St) (e : Ev) (hd : s.deleted = false) (hs : isSession s)
     (he : e = .close ∨ ∃ k, e = .connLost k) :
-    (step c s e).2 = [.trans s.st .idle s.admin s.now] ∧
+    (step c s e).2 = drainOuts s ++ [.trans s.st .idle s.admin s.now] ∧
     (step c s e).1.st = .idle ∧ (step c s e).1.now = s.now ∧
     (step c s e).1.holdT = none ∧ (step c s e).1.kaT = none ∧ (step c s e).1.rib = 0 := by
   unfold step
@@ -290,6 +291,104 @@ theorem transport_fault (c : Cfg) (s : St) (e : Ev) (hd : s.deleted = false) (hs
 
 example : (step ⟨65001, 1, 65002, 90, 30, 30, 0⟩ { init with st := .established, rib := 3, holdT := some 90 }
     (.connLost 2)).1.st = .idle := by decide
+
+/-! ## nothing of the old session generation survives a teardown -/
+
+/-- in IDLE, in ACTIVE and after deletion no completed outgoing connection waits to be taken -/
+def NoneQueued (s : St) : Prop := (s.st = .idle ∨ s.st = .active ∨ s.deleted = true) → s.queued = false
+
+theorem fireTimer_noneQueued {s : St} {t d : Nat} {tm : Tm} (hd : due s t = some (tm, d))
+    (h : NoneQueued s) : NoneQueued (fireTimer s tm d).1 := by
+  cases tm with
+  | idle =>
+    have hs := due_idle hd
+    have hq : s.queued = false := h (Or.inl hs)
+    by_cases ha : s.admin = .up <;> simp [NoneQueued, fireTimer, ha, hs, hq]
+  | hold => simp [NoneQueued, fireTimer, notifyIdle, toIdle]
+  | ka =>
+    have hne : s.st ≠ .idle ∧ s.st ≠ .active := by
+      unfold due at hd
+      constructor <;> intro hc <;> simp [hc] at hd
+      repeat' split at hd
+      all_goals simp_all
+    intro hc
+    simp [fireTimer] at hc ⊢
+    rcases hc with hc | hc | hc
+    · exact absurd hc hne.1
+    · exact absurd hc hne.2
+    · exact h (Or.inr (Or.inr hc))
+
+theorem advance_noneQueued (f : Nat) (s : St) (t : Nat) (h : NoneQueued s) :
+    NoneQueued (advance f s t).1 := by
+  induction f generalizing s with
+  | zero => simpa [advance] using h
+  | succ f ih =>
+    unfold advance
+    cases hd : due s t with
+    | none => simpa [NoneQueued] using h
+    | some p =>
+      obtain ⟨tm, d⟩ := p
+      exact ih _ (fireTimer_noneQueued hd h)
+
+theorem step_noneQueued (c : Cfg) (s : St) (e : Ev) (h : NoneQueued s) : NoneQueued (step c s e).1 := by
+  unfold step
+  by_cases hd : s.deleted = true
+  · have hq : s.queued = false := h (Or.inr (Or.inr hd))
+    simp only [hd, if_true]
+    cases e <;> simp [onDeleted, NoneQueued, hq]
+  · simp only [hd]
+    cases e with
+    | tick t => exact advance_noneQueued _ _ _ h
+    | «open» o =>
+      cases hs : s.st <;> simp_all [NoneQueued, onIdle, onActive, onOpensent, onOpenconfirm,
+        onEstablished, notifyIdle, toIdle]
+      cases hv : validateOpen c o <;> simp_all [notifyIdle, toIdle]
+    | update n =>
+      cases hs : s.st <;> simp_all [NoneQueued, onIdle, onActive, onOpensent, onOpenconfirm,
+        onEstablished, notifyIdle, toIdle]
+      split <;> simp_all
+    | _ =>
+      cases hs : s.st <;> simp_all [NoneQueued, onIdle, onActive, onOpensent, onOpenconfirm,
+        onEstablished, notifyIdle, closeIdle, toIdle, die]
+
+/-- **no_old_generation** — for every history: (1) whenever the peer is in IDLE or ACTIVE (or
+    deleted) no connection of an earlier attempt waits in fsm.outgoingConnCh, so a session can
+    leave ACTIVE only on a connection that arrives from then on (`connect`, or an `outgoing`
+    hand-over event); (2) every step that brings a session state to IDLE, for whatever reason
+    (disable, shutdown, reset, hold expiry, transport fault, NOTIFICATION, FSM / header / OPEN
+    error, prefix limit), closes a connection that was waiting there, at that instant. -/
+theorem no_old_generation (c : Cfg) (es : List Ev) :
+    NoneQueued (run c init es).1 ∧
+    ∀ (s : St) (e : Ev), s.deleted = false → s.queued = true → (∀ t, e ≠ .tick t) →
+      (step c s e).1.st = .idle → s.st ≠ .idle → Out.close .o s.now ∈ (step c s e).2 := by
+  constructor
+  · have hrun : ∀ (s : St) (es : List Ev), NoneQueued s → NoneQueued (run c s es).1 := by
+      intro s es
+      induction es generalizing s with
+      | nil => intro h; simpa [run] using h
+      | cons e es ih => intro h; simp only [run]; exact ih _ (step_noneQueued c s e h)
+    exact hrun init es (by simp [NoneQueued, init])
+  · intro s e hd hq ht hidle hne
+    revert hidle
+    unfold step
+    simp only [hd]
+    cases e with
+    | tick t => exact absurd rfl (ht t)
+    | «open» o =>
+      cases hs : s.st <;> simp_all [onIdle, onActive, onOpensent, onOpenconfirm, onEstablished,
+        notifyIdle, toIdle, drainOuts]
+      cases hv : validateOpen c o <;> simp_all [notifyIdle, toIdle, drainOuts]
+    | update n =>
+      cases hs : s.st <;> simp_all [onIdle, onActive, onOpensent, onOpenconfirm, onEstablished,
+        notifyIdle, toIdle, drainOuts]
+      split <;> simp_all [drainOuts]
+    | _ =>
+      cases hs : s.st <;> simp_all [onIdle, onActive, onOpensent, onOpenconfirm, onEstablished,
+        notifyIdle, closeIdle, toIdle, die, drainOuts]
+
+example : (run ⟨65001, 1, 65002, 90, 30, 30, 0⟩ init
+    [.tick 0, .connect, .open ⟨4, 65002, 2, 30⟩, .keepalive, .outgoing ⟨4, 65002, 2, 30⟩, .shutdown]).2.contains
+    (.close .o 0) = true := by decide
 
 /-- **session_open_validated** — whichever way a connection collision in OPENSENT is resolved
     (the accepted connection's OPEN seen first, or the completed outgoing connection seen first),
